@@ -207,7 +207,14 @@ impl DocSpec {
         out
     }
 }
+/// word index of a 41-letter word: the default tokenizer removes it (RemoveLongFilter, limit 40) from documents and from
+/// quoted phrases alike, but the position it occupied stays - `"aa qqq…q b"` needs `b` two positions after `aa`
+pub const LONG: u8 = 255;
+pub const LONG_WORD: &str = "qqqqqqqqqqqqqqqqqqqqqqqqqqqqqqqqqqqqqqqqq";
 fn word(i: u8) -> &'static str {
+    if i == LONG {
+        return LONG_WORD;
+    }
     VOCAB[i as usize % VOCAB.len()]
 }
 fn words_text(ws: &[u8]) -> String {
@@ -351,6 +358,9 @@ pub enum Node {
     Group(Fld, Box<Node>),
     /// `x^boost` ; index into BOOSTS
     Boost(Box<Node>, u8),
+    /// `-x` as an operand of an AND-group of a chain that also has a positive operand (`a OR -b AND c`): the group is
+    /// the conjunction of its positive operands minus the documents matching x.  Only valid there (sanitize).
+    Neg(Box<Node>),
 }
 pub const BOOSTS: &[&str] = &["2", "0.5", "1", "3.25", "10", "1.0"];
 
@@ -374,13 +384,15 @@ pub fn sanitize(n: &Node, in_group: bool) -> Node {
             Leaf::All if in_group => Leaf::Word { field: None, w: 0 },
             Leaf::Word { field, w } => Leaf::Word { field: text_field(*field), w: *w % VOCAB.len() as u8 },
             Leaf::Phrase { field, ws, slop, prefix } => {
-                let mut ws: Vec<u8> = ws.iter().map(|w| *w % VOCAB.len() as u8).take(4).collect();
-                if ws.is_empty() {
-                    ws.push(0);
-                }
                 let prefix = prefix.map(|p| p % PREFIXES.len() as u8);
+                // the removed word only in plain phrases, next to at least one word that stays
+                let mut ws: Vec<u8> = ws.iter().filter(|w| **w != LONG || prefix.is_none()).map(|w| if *w == LONG { LONG } else { *w % VOCAB.len() as u8 }).take(4).collect();
+                if ws.iter().all(|w| *w == LONG) {
+                    ws.insert(0, 0);
+                    ws.truncate(4);
+                }
                 // sloppy phrases: exactly two distinct terms (DESIGN §5 item 15), never together with a prefix
-                let slop = if prefix.is_none() && ws.len() == 2 && ws[0] != ws[1] { *slop % 4 } else { 0 };
+                let slop = if prefix.is_none() && ws.len() == 2 && ws[0] != ws[1] && !ws.contains(&LONG) { *slop % 4 } else { 0 };
                 Leaf::Phrase { field: text_field(*field), ws, slop, prefix }
             }
             Leaf::Typed { field, v } => {
@@ -409,7 +421,31 @@ pub fn sanitize(n: &Node, in_group: bool) -> Node {
             Node::Clauses(out)
         }
         Node::Chain(groups) => {
-            let groups: Vec<Vec<Node>> = groups.iter().take(3).map(|g| g.iter().take(3).map(|n| sanitize(n, in_group)).collect::<Vec<_>>()).filter(|g| !g.is_empty()).collect();
+            let groups: Vec<Vec<Node>> = groups
+                .iter()
+                .take(3)
+                .map(|g| {
+                    let mut g: Vec<Node> = g
+                        .iter()
+                        .take(3)
+                        .map(|n| match n {
+                            // an excluded operand: a plain leaf or a field group
+                            Node::Neg(x) => match sanitize(x, in_group) {
+                                Node::Leaf(Leaf::All) => Node::Neg(Box::new(Node::Leaf(Leaf::Word { field: None, w: 0 }))),
+                                y @ (Node::Leaf(_) | Node::Group(..)) => Node::Neg(Box::new(y)),
+                                y => y,
+                            },
+                            n => sanitize(n, in_group),
+                        })
+                        .collect();
+                    // exclusions only next to a positive operand of the same AND-group
+                    if g.len() < 2 || g.iter().all(|n| matches!(n, Node::Neg(_))) {
+                        g = g.into_iter().map(|n| if let Node::Neg(x) = n { *x } else { n }).collect();
+                    }
+                    g
+                })
+                .filter(|g| !g.is_empty())
+                .collect();
             let total: usize = groups.iter().map(|g| g.len()).sum();
             match total {
                 0 => Node::Leaf(Leaf::Word { field: None, w: 0 }),
@@ -422,6 +458,8 @@ pub fn sanitize(n: &Node, in_group: bool) -> Node {
             Node::Group(f, Box::new(sanitize(inner, true)))
         }
         Node::Boost(inner, b) => Node::Boost(Box::new(sanitize(inner, in_group)), *b % BOOSTS.len() as u8),
+        // anywhere else than directly inside a chain: the operand itself
+        Node::Neg(inner) => sanitize(inner, in_group),
     }
 }
 
@@ -430,7 +468,7 @@ pub fn leaves(n: &Node) -> usize {
         Node::Leaf(_) => 1,
         Node::Clauses(cs) => cs.iter().map(|(_, n)| leaves(n)).sum(),
         Node::Chain(gs) => gs.iter().flatten().map(leaves).sum(),
-        Node::Group(_, n) | Node::Boost(n, _) => leaves(n),
+        Node::Group(_, n) | Node::Boost(n, _) | Node::Neg(n) => leaves(n),
     }
 }
 #[derive(Default, Debug)]
@@ -467,6 +505,10 @@ pub fn mix_of(n: &Node, m: &mut Mix) {
             mix_of(n, m)
         }
         Node::Boost(n, _) => mix_of(n, m),
+        Node::Neg(n) => {
+            m.signs = true;
+            mix_of(n, m)
+        }
     }
 }
 
@@ -491,7 +533,7 @@ pub fn dup_collapse_hazard(n: &Node) -> bool {
         Node::Leaf(_) => false,
         Node::Clauses(cs) => cs.iter().any(|(s, c)| (*s == Sign::None && collapses(c)) || dup_collapse_hazard(c)),
         Node::Chain(gs) => gs.iter().flatten().any(dup_collapse_hazard),
-        Node::Group(_, c) | Node::Boost(c, _) => dup_collapse_hazard(c),
+        Node::Group(_, c) | Node::Boost(c, _) | Node::Neg(c) => dup_collapse_hazard(c),
     }
 }
 
@@ -514,6 +556,10 @@ fn phrase_match(tokens: &[u8], ph: &[u8], slop: i64) -> bool {
         }
         if i == ph.len() {
             return true;
+        }
+        if ph[i] == LONG {
+            // removed from the query: no term, no constraint, but the following terms keep their distance
+            return rec(tokens, ph, i + 1, prev, cost, slop);
         }
         for (p, w) in tokens.iter().enumerate() {
             if *w == ph[i] {
@@ -632,7 +678,8 @@ pub fn range_val_idx(f: Fld, raw: u16) -> usize {
 }
 fn doc_keys(d: &DocSpec, f: Fld) -> Vec<Key> {
     if f.is_text() {
-        d.words(f).iter().map(|w| Key::Str(str::as_bytes(word(*w)).to_vec())).collect()
+        // (the removed long word is not a term of the index)
+        d.words(f).iter().filter(|w| **w != LONG).map(|w| Key::Str(str::as_bytes(word(*w)).to_vec())).collect()
     } else {
         d.typed_idx(f).map(|i| vec![pools().get(f)[i].key.clone()]).unwrap_or_default()
     }
@@ -716,7 +763,9 @@ pub fn eval(n: &Node, d: &DocSpec, cx: &EvalCx, scope: Option<Fld>) -> bool {
             }
             any_must || any_should_hit
         }
-        Node::Chain(groups) => groups.iter().any(|g| g.iter().all(|n| eval(n, d, cx, scope))),
+        Node::Chain(groups) => groups.iter().any(|g| g.iter().all(|n| if let Node::Neg(x) = n { !eval(x, d, cx, scope) } else { eval(n, d, cx, scope) })),
+        // (only reachable through a chain, see sanitize)
+        Node::Neg(inner) => !eval(inner, d, cx, scope),
         Node::Group(f, inner) => eval(inner, d, cx, Some(*f)),
         Node::Boost(inner, _) => eval(inner, d, cx, scope),
     }
@@ -961,6 +1010,12 @@ pub fn print_leaf(l: &Leaf, sty: &mut Sty) -> String {
                 s
             };
             sty.feat(if toks.len() >= 2 { "leaf:phrase" } else { "leaf:quoted_single_term" });
+            if ws.contains(&LONG) {
+                sty.feat("leaf:phrase_with_removed_token");
+                if ws.iter().position(|w| *w != LONG).map(|a| ws[a..].iter().rposition(|w| *w != LONG).map(|b| ws[a..a + b].contains(&LONG)).unwrap_or(false)).unwrap_or(false) {
+                    sty.feat("leaf:phrase_with_removed_token_between_terms");
+                }
+            }
             match field {
                 Some(f) => format!("{}{body}", print_field(f.name(), sty)),
                 None => body,
@@ -1137,6 +1192,7 @@ pub fn print_operand(n: &Node, sty: &mut Sty) -> String {
             sty.feat("field_group");
             format!("{}({}{}{})", print_field(f.name(), sty), sty.ws0(), print_inner(inner, sty), sty.ws0())
         }
+        Node::Neg(inner) => format!("-{}", print_operand(inner, sty)),
         Node::Boost(inner, b) => {
             sty.feat("boost");
             let elastic = matches!(&**inner, Node::Leaf(Leaf::Range { lo, hi, elastic: true, .. }) if (lo.0 == Bk::Open) != (hi.0 == Bk::Open));
@@ -1202,7 +1258,16 @@ pub fn print_inner(n: &Node, sty: &mut Sty) -> String {
                         s.push_str(sty.ws_after_op());
                         sty.feat("chain:and");
                     }
-                    s.push_str(&print_operand(sub, sty));
+                    if let Node::Neg(x) = sub {
+                        sty.feat("chain:excluded_operand");
+                        if gi > 0 && i == 0 {
+                            sty.feat("chain:or_minus_and");
+                        }
+                        s.push('-');
+                        s.push_str(&print_operand(x, sty));
+                    } else {
+                        s.push_str(&print_operand(sub, sty));
+                    }
                 }
             }
             if groups.len() >= 2 && groups.iter().any(|g| g.len() >= 2) {
@@ -1262,7 +1327,7 @@ fn bk() -> impl Strategy<Value = Bk> {
 fn leaf() -> impl Strategy<Value = Leaf> {
     prop_oneof![
         6 => (text_fld_opt(), wid()).prop_map(|(field, w)| Leaf::Word { field, w }),
-        3 => (text_fld_opt(), prop::collection::vec(wid(), 1..4), 0u8..4, prop::option::weighted(0.25, any::<u8>())).prop_map(|(field, ws, slop, prefix)| Leaf::Phrase { field, ws, slop, prefix }),
+        3 => (text_fld_opt(), prop::collection::vec(prop_oneof![5 => wid(), 1 => Just(LONG)], 1..5), 0u8..4, prop::option::weighted(0.25, any::<u8>())).prop_map(|(field, ws, slop, prefix)| Leaf::Phrase { field, ws, slop, prefix }),
         5 => (fld_of(TYPED), any::<u16>()).prop_map(|(field, v)| Leaf::Typed { field, v }),
         3 => (any::<u16>(), jlit()).prop_map(|(key, lit)| Leaf::Json { key, lit }),
         4 => (fld_of(RANGEABLE), (bk(), any::<u16>()), (bk(), any::<u16>()), any::<bool>()).prop_map(|(field, lo, hi, elastic)| Leaf::Range { field, lo, hi, elastic }),
@@ -1277,7 +1342,7 @@ pub fn node() -> impl Strategy<Value = Node> {
     leaf().prop_map(Node::Leaf).prop_recursive(3, 16, 4, |inner| {
         prop_oneof![
             4 => prop::collection::vec((sign(), inner.clone()), 1..5).prop_map(Node::Clauses),
-            4 => prop::collection::vec(prop::collection::vec(inner.clone(), 1..4), 1..4).prop_map(Node::Chain),
+            4 => prop::collection::vec(prop::collection::vec((inner.clone(), prop::bool::weighted(0.2)).prop_map(|(n, neg)| if neg { Node::Neg(Box::new(n)) } else { n }), 1..4), 1..4).prop_map(Node::Chain),
             // repeated operands (the grammar removes duplicate clauses)
             1 => (inner.clone(), inner.clone(), sign(), 2usize..4, 0u8..3).prop_map(|(other, x, s, n, shape)| {
                 let dup = match shape {
@@ -1310,8 +1375,8 @@ fn jv() -> impl Strategy<Value = JV> {
 }
 fn doc() -> impl Strategy<Value = DocSpec> {
     (
-        prop::collection::vec(wid(), 0..6),
-        prop::collection::vec(wid(), 0..8),
+        prop::collection::vec(prop_oneof![12 => wid(), 1 => Just(LONG)], 0..6),
+        prop::collection::vec(prop_oneof![12 => wid(), 1 => Just(LONG)], 0..8),
         prop::collection::vec(prop::option::weighted(0.6, any::<u16>()), TYPED.len()..=TYPED.len()),
         prop::collection::vec((any::<u16>(), jv()), 0..4),
     )
@@ -1554,7 +1619,7 @@ impl Sub for Semantics {
                 let ecx = EvalCx { conj, default_text, default_u64: c.defaults % 3 == 2 };
                 let expected: BTreeSet<u64> = match &q {
                     Top::Query(n) => c.docs.iter().enumerate().filter(|(_, d)| eval(n, d, &ecx, None)).map(|(i, _)| i as u64).collect(),
-                    Top::Exists(f) => c.docs.iter().enumerate().filter(|(_, d)| if f.is_text() { !d.words(*f).is_empty() } else { d.typed_idx(*f).is_some() }).map(|(i, _)| i as u64).collect(),
+                    Top::Exists(f) => c.docs.iter().enumerate().filter(|(_, d)| if f.is_text() { d.words(*f).iter().any(|w| *w != LONG) } else { d.typed_idx(*f).is_some() }).map(|(i, _)| i as u64).collect(),
                     Top::AllNegative(_) => unreachable!(),
                 };
                 // executing the parsed query is C03/C13 territory; a panic there is reported under its own signature
